@@ -32,7 +32,8 @@ META = dict(
          "instructions, calls, exceptions, unloading): no panic escapes Run, HALT => GasConsumed <= GasLimit, item counter >= "
          "independent walk at every step and == while no cycle was built, limits; refs trace, state, stack and gas equal the "
          "model's; soundness of the static script check (model of scparser.IsScriptCorrect, compared with it on every case): a "
-         "script that passes never stands at a non-boundary offset - proved in Coq and checked directly on the real VM. "
+         "script that passes never stands at a non-boundary offset, also when entered at a method offset accepted with a methods bit "
+         "field (as Management.checkScriptAndMethods calls it) - proved in Coq and checked directly on the real VM. "
          "Counter soundness (reach_count <= refs after every instruction of every execution and at HALT, any script) is "
          "proved in Coq through an in-degree invariant of the per-compound counts, preserved by every instruction family "
          "(creation, growth, readers, spreading, removal/SETITEM, slots and stack shuffles, CALL/RET/unloading, TRY/THROW "
